@@ -688,7 +688,7 @@ pub fn run_c13(tier: &str, seed: u64, shard: u64, nshards: u64, scale: f64, stat
         if i % 5000 == 0 {
             emit_progress(i);
         }
-        let max_depth = if r.chance(1, 40) { r.range(40, 200) } else { r.range(1, 6) };
+        let max_depth = if r.chance(1, 40) { if r.chance(1, 3) { r.range(248, 254) } else { r.range(40, 200) } } else { r.range(1, 6) };
         let v = gen_json(&mut r, 0, max_depth);
         let si = r.below(styles.len());
         let mut text = String::new();
